@@ -120,9 +120,56 @@ def strict_hdr(c):
 
 # =================================================================================================
 # convert_currency
+def gen_convert_currency_only(r: random.Random):
+    """slices that differ ONLY in currency, built so that many cells coincide exactly after conversion (equal amounts
+    at the given rates, all-zero cells): the result must still have one cell per input cell and the same totals"""
+    from bermuda import Triangle
+
+    g = Gen(r)
+    fields = r.sample(FIELD_POOL, r.randint(2, 4))
+    for _ in range(30):
+        cells, info = g.cells(layout=r.choice(["regular", "ragged", "single_period"]), n_slices=1,
+                              values=r.choice(["float", "arr_float", "float"]), fields=fields,
+                              n_periods=r.randint(1, 3), n_lags=r.randint(1, 3))
+        if len(cells) <= 8:
+            break
+    pool = ["USD", "EUR", "GBP", "JPY"]
+    r.shuffle(pool)
+    base_cur, others = pool[0], pool[1:r.randint(2, 3)]
+    rates = {cur: r.choice([0.5, 2.0, 0.25, 4.0, 1.0]) for cur in pool}
+    target = base_cur if r.random() < 0.7 else pool[3]
+    base_rate = 1.0 if target == base_cur else rates[base_cur]
+
+    def scaled(v, k):
+        return v * k if not isinstance(v, np.ndarray) else v * k
+
+    base = []
+    for c in cells:
+        vals = dict(c.values)
+        if r.random() < 0.3:   # an all-zero early cell
+            vals = {f: (np.zeros(len(v)) if isinstance(v, np.ndarray) else 0) for f, v in vals.items()}
+        base.append(c.replace(values=vals, metadata=dataclasses.replace(c.metadata, currency=base_cur)))
+    new_cells = list(base)
+    for oc in others:
+        k = base_rate / (1.0 if oc == target else rates[oc])      # amounts in oc that convert to the base's converted amounts
+        for c in base:
+            if r.random() < 0.6:    # coincides with the base slice's cell after conversion
+                vals = {f: (scaled(v, k) if f in DOCUMENTED_CURRENCY_FIELDS else v) for f, v in c.values.items()}
+            else:
+                vals = {f: (np.array([g.num("float") for _ in range(len(v))]) if isinstance(v, np.ndarray) else g.num("float"))
+                        for f, v in c.values.items()}
+            new_cells.append(c.replace(values=vals, metadata=dataclasses.replace(c.metadata, currency=oc)))
+    with warnings.catch_warnings():
+        warnings.simplefilter("ignore")
+        tri = Triangle(new_cells)
+    return dict(kind="convert", tri=tri, target=target, rates=rates, style="dyadic", mode="currency-only")
+
+
 def gen_convert(r: random.Random):
     from bermuda import Triangle
 
+    if r.random() < 0.3:
+        return gen_convert_currency_only(r)
     g = Gen(r)
     n_slices = r.choice([1, 2, 3, 4])
     fields = r.sample(FIELD_POOL, r.randint(2, 5))
@@ -195,6 +242,18 @@ def oracle_convert(case, res):
         want.append((hdr, vals, c))
     got = list(out.cells)
     fails = []
+    # totals per field in the target currency (a lost or doubled cell shows here even if every surviving cell is right)
+    tot_want, tot_got = {}, {}
+    for _, vals, _ in want:
+        for f, (_, xs, _) in vals.items():
+            tot_want[f] = tot_want.get(f, 0) + sum(xs)
+    for o in got:
+        for f, v in o.values.items():
+            tot_got[f] = tot_got.get(f, 0) + sum(samples_of(v))
+    for f, w in tot_want.items():
+        if not close(w, tot_got.get(f, Fraction(0)), tol):
+            fails.append(f"total of {f} over the triangle is {float(tot_got.get(f, 0))!r} after conversion, expected {float(w)!r}")
+            break
     for hdr, vals, c in want:
         hit = None
         for j, o in enumerate(got):
@@ -303,17 +362,36 @@ def gen_disagg(r: random.Random, partial=True):
     n = R // sub if R % sub == 0 and sub < R else 2
     wx = r.random()
     wtag = "none"
-    if wx < 0.35:
+    if wx < 0.30:
         weights = None
-    elif wx < 0.75:
+    elif wx < 0.62:
         weights, wtag = dy_weights(r, n), "dyadic"
-    elif wx < 0.87:
+    elif wx < 0.74:
         raw = [r.randint(1, 9) for _ in range(n)]
         weights, wtag = [v / sum(raw) for v in raw], "float"
         if abs(sum(weights) - 1) != 0:   # the code demands sum == 1 exactly in floats
             weights[-1] = 1 - sum(weights[:-1])
             if sum(weights) != 1:
                 weights, wtag = dy_weights(r, n), "dyadic"
+    elif wx < 0.88 and how == "ok":
+        # user-supplied lists whose sum is close to but not exactly 1: the library refuses them (ValueError); if a
+        # changed library accepts them, the sub-period values must still add up to the original
+        kind = r.choice(["rounded", "rounded", "minus", "plus", "dyadic-plus", "dyadic-minus"])
+        if kind == "rounded":
+            weights = [round(1 / n, r.choice([5, 6]))] * n          # 0.33333*3, 0.166667*6, ...
+            if sum(weights) == 1:
+                weights[-1] = weights[-1] - 1e-6
+        elif kind in ("minus", "plus"):
+            weights = [1 / n] * n
+            weights[r.randrange(n)] += -1e-9 if kind == "minus" else 1e-9
+        else:
+            weights = dy_weights(r, n)
+            k = max(range(n), key=lambda i: weights[i]) if kind == "dyadic-minus" else min(range(n), key=lambda i: weights[i])
+            weights[k] += -1e-6 if kind == "dyadic-minus" else 1e-6
+        if sum(weights) == 1 or not all(0 <= w <= 1 for w in weights):
+            weights, wtag = dy_weights(r, n), "dyadic"
+        else:
+            wtag = "near-one"
     elif wx < 0.92:
         weights, wtag = dy_weights(r, n) + [0.0], "bad-length"
     elif wx < 0.96:
@@ -359,6 +437,9 @@ def oracle_disagg(case, res):
 
     tri, sub = case["tri"], case["res"]
     if res[0] != "ok" or case["how"] != "ok" or case["wtag"].startswith("bad"):
+        # (weights whose sum is only close to 1 -- wtag "near-one" -- are not skipped: either refused or conserving)
+        if case["wtag"] == "near-one" and res[0] == "err" and not isinstance(res[1], ValueError):
+            return [f"weights summing to {sum(case['weights'])!r}: raised {type(res[1]).__name__} instead of ValueError"], []
         return [], []
     out = res[1]
     if out is tri:
@@ -480,6 +561,17 @@ def gen_aq(r: random.Random, directed=None):
     g = Gen(r)
     nq = r.randint(2, 7)
     y0, q0 = r.randint(2015, 2023), r.choice([1, 4, 7, 10])
+    era = "modern"
+    if directed is None and r.random() < 0.3:
+        # experience starting in 1969 and running into the 1970s (month ids change sign inside the triangle); dates are
+        # built by hand.  The first policy year starts in 1969 too (origin month <= first month), where the clean
+        # add_months is right (its result lies in 1970); earlier policy years are the separate finding probed below.
+        era = "straddle-1970"
+        y0, q0 = 1969, r.choice([1, 4, 7, 10])
+        nq = r.randint(3, 8)
+    if directed and directed.get("era") == "pre1969":
+        era = "pre1969"
+        y0, q0, nq = 1965, 1, r.randint(3, 6)
     n_extra = r.randint(0, 3)
     fields = r.sample(FIELD_POOL, r.randint(1, 3))
     kinds = {f: r.choice(["int", "float", "arr_float"]) for f in fields}
@@ -510,7 +602,11 @@ def gen_aq(r: random.Random, directed=None):
         if n_slices == 2 and r.random() < 0.5:
             nq = max(2, nq - 1)
     if directed:
-        params = dict(directed)
+        params = {k: v for k, v in directed.items() if k != "era"}
+    elif era == "straddle-1970":
+        plen = r.choice([12, 12, 6, 3, 24])
+        params = dict(policy_length_months=plen, policy_year_origin=D(2020, r.choice([m for m in (1, 3, 4, 7, 10) if m <= q0]), 1),
+                      continuous_issuance=(r.random() < 0.7) or plen < 12)
     else:
         # inside the hypothesis of the conservation theorem (every accident quarter has a positive total share):
         # non-continuous issuance only with policies at least as long as the policy year (the rest is F18, probed apart)
@@ -530,7 +626,7 @@ def gen_aq(r: random.Random, directed=None):
     with warnings.catch_warnings():
         warnings.simplefilter("ignore")
         tri = Triangle(cells)
-    return dict(kind="aq", tri=tri, flat=flat, **params)
+    return dict(kind="aq", tri=tri, flat=flat, era=era, **params)
 
 
 def run_aq(case):
@@ -606,6 +702,8 @@ def oracle_aq(case, res):
                     acc[k] = [p + q for p, q in zip(a, xs)]
                 else:
                     acc[k] = xs
+    if case.get("era") != "pre1969":
+        fails += policy_period_failures(out)[:2]
     for k, want in tin.items():
         got = tout.get(k)
         if got is None or len(got) != len(want) or not all(close(w, g_) for w, g_ in zip(want, got)):
@@ -781,7 +879,10 @@ def evaluate(case, res):
         fc = None
         if fails and res[0] == "ok":
             try:
-                if uncovered_quarters(share_tables(case)):
+                # F18 = non-continuous issuance with policies shorter than 11 months (for continuous issuance and for
+                # longer policies coverage is a theorem: an uncovered quarter there is a real violation)
+                if (not case["continuous_issuance"] and case["policy_length_months"] < 11
+                        and uncovered_quarters(share_tables(case))):
                     fc = F18_CLASS
             except Exception:  # noqa: BLE001
                 pass
@@ -820,7 +921,9 @@ def run(ctx):
         "tables dyadic / non-dyadic float / int with missing and unused entries, three targets. disaggregate: cumulative "
         "semi-regular triangles with period resolution 3/6/12, 1-3 periods, 1-2 slices, evaluation dates inside the period "
         "(partially observable, first sub-period always observable) and after it, divisor sub-resolutions plus same / coarser "
-        "/ non-divisor, weights None / dyadic / float / invalid (length, sum, range), fields None / subsets / unknown. "
+        "/ non-divisor, weights None / dyadic / float / invalid (length, sum, range) / sum close to but not exactly 1 "
+        "(0.33333*3, 0.166667*6, 1-1e-9, 1+1e-9, dyadic +-1e-6: refused, or else conserving to 1e-9), fields None / subsets / "
+        "unknown. "
         "accident quarters: 2-7 quarters x triangle / rectangle / holey shapes with a flat right edge (6% ragged for the "
         "refusal), 1-2 slices, policy-year origins Jan/Apr/Jul/Oct/Mar, policy lengths 3/6/12/24, continuous and "
         "non-continuous issuance. premium: writing/earning patterns of length 1-5 (dyadic / int / float, zeros allowed), "
@@ -894,6 +997,7 @@ def run(ctx):
             try:
                 if kind == "convert":
                     ctx.hist(f"convert:rates-{case['style']}")
+                    ctx.hist(f"convert:mode-{case.get('mode', 'general')}")
                     tol = TOL if case["style"] == "float" else Fraction(0)
                     txt = coq_convert(case, res, tol)
                 elif kind == "disagg":
@@ -908,6 +1012,7 @@ def run(ctx):
                     txt = coq_disagg(case, res, Fraction(0) if exact else TOL)
                 elif kind == "aq":
                     ctx.hist(f"aq:len{case['policy_length_months']}/cont={case['continuous_issuance']}/flat={case['flat']}")
+                    ctx.hist(f"aq:era-{case.get('era', 'modern')}")
                     txt = coq_aq(case, res, share_tables(case))
                 else:
                     ctx.hist(f"premium:{case['style']}")
@@ -931,6 +1036,7 @@ def run(ctx):
 
     # ---------------------------------------------------------------- directed probes
     probe_f18(ctx)
+    probe_pre1970(ctx)
     probe_candidates(ctx)
 
     # ---------------------------------------------------------------- verdicts
@@ -968,6 +1074,43 @@ def probe_f18(ctx):
                 ctx.violation("impl-violation", "accident_quarter_to_policy_year loses amounts although every quarter has a share: "
                               + fails[0], {"case": case_json(case), "failures": fails[:5]}, found_input=True)
     ctx.hist("aq:F18-directed-probes-failing", hits)
+
+
+PRE1970_CLASS = {"kind": "aq_to_py_pre1970_policy_year_length"}
+
+
+def probe_pre1970(ctx):
+    """accident quarters of 1965-66: policy_years_covered steps with add_months(., 12), which is off by one month before
+    1970 (F10), so the Policy-basis periods are 13 months long (totals are still conserved)"""
+    r = random.Random(ctx.seed + 1965)
+    case = gen_aq(r, directed=dict(era="pre1969", policy_length_months=12, policy_year_origin=D(2020, 1, 1),
+                                   continuous_issuance=True))
+    res = run_aq(case)
+    ctx.count(evaluations=1)
+    if res[0] != "ok":
+        ctx.violation("impl-violation", f"accident_quarter_to_policy_year on 1965 quarters raised {type(res[1]).__name__}",
+                      {"case": case_json(case)}, found_input=True)
+        return
+    fails = oracle_aq(case, res)
+    if fails:
+        ctx.violation("impl-violation", "aq (1965 quarters): " + fails[0], {"case": case_json(case), "failures": fails[:5]},
+                      found_input=True)
+        return
+    bad = policy_period_failures(res[1])
+    if bad:
+        ctx.violation("impl-violation", "accident_quarter_to_policy_year on 1965 quarters: " + bad[0],
+                      {"case": case_json(case), "failures": bad[:5], "check": "policy_periods"}, found_input=True,
+                      finding_class=PRE1970_CLASS)
+
+
+def policy_period_failures(out):
+    """every Policy-basis period must be exactly twelve calendar months"""
+    bad = []
+    for c in out.cells:
+        y, m = add_m(c.period_start.year, c.period_start.month, 11)
+        if c.period_start.day != 1 or c.period_end != month_end(y, m):
+            bad.append(f"policy period {c.period_start}..{c.period_end} is not a twelve-month year")
+    return sorted(set(bad))
 
 
 def probe_candidates(ctx):
@@ -1030,6 +1173,8 @@ def replay(ctx, data):
     print(case["kind"], {k: v for k, v in case.items() if k != "tri"}, "->",
           "ok" if res[0] == "ok" else repr(res[1]))
     fails, fc = evaluate(case, res)
+    if data.get("check") == "policy_periods" and res[0] == "ok":
+        fails = fails + policy_period_failures(res[1])
     if case.get("probe") == "H3" and res[0] == "err":
         fails = fails + [f"raised {type(res[1]).__name__}: {res[1]}"]
     for f in fails[:10]:
